@@ -36,12 +36,12 @@ ASSUMPTIONS = [
     "files matched by one glob pattern are applied in sorted order, patterns in listed order (DOCUMENTATION: default_config_files)",
     "with default_env off the environment is ignored by parse_args / parse_string / parse_object / parse_path; parse_env always reads it",
 ]
-KEYS = ["a", "g.x", "g.y", "l", "d", "s"]
+KEYS = ["a", "g.x", "g.y", "l", "d", "s", "pq"]  # pq: an optional positional (nargs='?'); on the command line it is only ever set through --cfg
 ITEMS = ["p", "q", "r"]
 
 
 def val(k):
-    if k in ("a", "g.x", "g.y"):
+    if k in ("a", "g.x", "g.y", "pq"):
         return st.integers(0, 9)
     if k == "l":
         return st.lists(st.integers(0, 9), max_size=2)
@@ -133,6 +133,7 @@ def env_active(sc):
 def fold(sc):
     s = dict(copy.deepcopy(sc["defaults"]))
     s.setdefault("g.y", None)
+    s.setdefault("pq", None)
     for d in dcf_docs(sc):
         for a in d:
             apply(s, a)
@@ -198,6 +199,7 @@ def run_scenario(sc, d):
         p.add_argument("--g.y", type=Optional[int])
         p.add_argument("--l", type=List[int], default=list(sc["defaults"]["l"]))
         p.add_argument("--d", type=Dict[str, int], default=dict(sc["defaults"]["d"]))
+        p.add_argument("pq", type=int, nargs="?")
         m = sc["method"]
         if m == "parse_env":
             r = p.parse_env(dict(env))
@@ -208,7 +210,9 @@ def run_scenario(sc, d):
                 for n, (kind, x) in enumerate(sc["cli"]):
                     if kind == "opt":
                         k, op, v = x
-                        if op == "set":
+                        if op == "set" and k == "pq":
+                            argv += ["--cfg", json.dumps({"pq": v})]
+                        elif op == "set":
                             argv.append(f"--{k}={v if k == 's' else json.dumps(v)}")
                         elif op == "append":
                             argv.append(f"--l+={json.dumps(v)}")
@@ -343,8 +347,8 @@ def self_test():
     sc = {"defaults": {"s": "dflt", "a": 1, "g.x": 2, "l": [0], "d": {"p": 1}}, "dcf": [{"file": "z_site", "doc": [["l", "append", 5]]}, {"glob": "conf.d", "docs": [["20_second", [["a", "set", 7]]], ["10_first", [["a", "set", 6]]]]}],
           "envcfg": [["d", "set", {"q": 2}]], "envvars": [["g.x", "set", 9]], "cli": [["opt", ["d", "item", ["r", 3]]], ["cfgstr", [["l", "set", [8]]]], ["opt", ["l", "append", [1, 2]]]],
           "env_mode": "on", "method": "parse_args", "final": []}
-    assert fold(sc) == {"s": "dflt", "a": 7, "g.x": 9, "l": [8, 1, 2], "d": {"q": 2, "r": 3}, "g.y": None}, fold(sc)
-    assert fold(dict(sc, env_mode="off")) == {"s": "dflt", "a": 7, "g.x": 2, "l": [8, 1, 2], "d": {"p": 1, "r": 3}, "g.y": None}
+    assert fold(sc) == {"s": "dflt", "a": 7, "g.x": 9, "l": [8, 1, 2], "d": {"q": 2, "r": 3}, "g.y": None, "pq": None}, fold(sc)
+    assert fold(dict(sc, env_mode="off")) == {"s": "dflt", "a": 7, "g.x": 2, "l": [8, 1, 2], "d": {"p": 1, "r": 3}, "g.y": None, "pq": None}
     assert fold(dict(sc, method="parse_env", env_mode="off"))["l"] == [0, 5]
     # the environment variable naming rule, cross-checked against what the parser's own help states
     from typing import Optional
